@@ -1,12 +1,500 @@
 (* HdrparseProofs.v — proofs about HdrparseModel (C25). *)
-Require Import SquidV.Bytes SquidV.ClenModel SquidV.HdrparseModel.
+Require Import SquidV.Bytes SquidV.ClenModel SquidV.ClenProofs SquidV.HdrparseModel.
 Require Import SquidV.gen.CharSets_gen SquidV.gen.HdrTable_gen.
+Require Import ZifyBool ZifyN.
 Local Open Scope N_scope.
 
-Lemma rejects_nul relaxed req proh block : In 0 block -> h_parse relaxed req proh block = None.
+(* ================================================================== 0. the linear-time helpers *)
+Lemma frev_rev l : frev l = rev l.
+Proof. unfold frev. symmetry. apply rev_alt. Qed.
+Lemma h_rtrim_eq l : h_rtrim l = rtrim l.
+Proof. unfold h_rtrim, rtrim. now rewrite !frev_rev. Qed.
+Lemma h_last_is_eq p l : h_last_is p l = last_is p l.
+Proof. unfold h_last_is, last_is. now rewrite frev_rev. Qed.
+Lemma h_strip_last_eq l : h_strip_last l = strip_last l.
+Proof. unfold h_strip_last, strip_last. now rewrite !frev_rev. Qed.
+Lemma h_proc_line_eq relaxed req ln cont : h_proc_line relaxed req ln cont = proc_line relaxed req ln cont.
+Proof. unfold h_proc_line, proc_line. now rewrite h_last_is_eq, h_strip_last_eq. Qed.
+
+(* ================================================================== 1. lines *)
+Definition nolf (l : bytes) : Prop := forallb (fun c => negb (c =? 10)) l = true.
+Definition join_lines (ls : list bytes) : bytes := concat (map (fun l => l ++ [10]) ls).
+
+Lemma ref_cut_split : forall l cur,
+  ref_cut cur l = (match fst (split_lines l) with
+                   | [] => []
+                   | x :: xs => (rev cur ++ x) :: xs
+                   end,
+                   match fst (split_lines l) with [] => rev cur ++ snd (split_lines l) | _ => snd (split_lines l) end).
 Proof.
-  intros H. unfold h_parse, h_block_fields.
-  assert (E : has_nul block = true).
-  { unfold has_nul. apply existsb_exists. exists 0. split; [exact H|reflexivity]. }
-  now rewrite E.
+  induction l as [|c r IH]; intros cur; cbn [ref_cut split_lines fst snd].
+  - now rewrite app_nil_r.
+  - destruct (c =? 10) eqn:E.
+    + rewrite (IH []). destruct (split_lines r) as [ls rem]. cbn [fst snd rev app].
+      rewrite app_nil_r. destruct ls; reflexivity.
+    + rewrite (IH (c :: cur)). destruct (split_lines r) as [ls rem]. cbn [fst snd rev].
+      destruct ls as [|x xs]; cbn [fst snd]; rewrite <- app_assoc; reflexivity.
+Qed.
+
+Lemma ref_cut_is_split l : ref_cut [] l = split_lines l.
+Proof.
+  rewrite ref_cut_split. destruct (split_lines l) as [ls rem]. cbn [fst snd rev app]. destruct ls; reflexivity.
+Qed.
+
+(* the lines are exactly the LF-separated pieces: they contain no LF and re-join to the block *)
+Lemma split_lines_join : forall l ls rem, split_lines l = (ls, rem) ->
+  l = join_lines ls ++ rem /\ Forall nolf ls /\ nolf rem.
+Proof.
+  induction l as [|c r IH]; intros ls rem; cbn [split_lines].
+  - intros [= <- <-]. repeat split; constructor.
+  - destruct (split_lines r) as [ls' rem'] eqn:E. destruct (IH _ _ eq_refl) as (Hj & Hf & Hr).
+    destruct (c =? 10) eqn:Ec.
+    + intros [= <- <-]. apply N.eqb_eq in Ec. subst c. repeat split; [|constructor; [reflexivity|exact Hf]|exact Hr].
+      unfold join_lines. cbn [map concat app]. now rewrite Hj.
+    + destruct ls' as [|x xs].
+      * intros [= <- <-]. repeat split; [|constructor|].
+        -- unfold join_lines in *. cbn [map concat app] in *. now rewrite Hj.
+        -- unfold nolf in *. cbn [forallb]. now rewrite Ec, Hr.
+      * intros [= <- <-]. pose proof (Forall_inv Hf) as Hx. pose proof (Forall_inv_tail Hf) as Hxs.
+        repeat split; [| |exact Hr].
+        -- unfold join_lines in *. cbn [map concat app] in *. now rewrite Hj.
+        -- constructor; [|exact Hxs]. unfold nolf in *. cbn [forallb]. now rewrite Ec, Hx.
+Qed.
+
+Lemma split_lines_nolf l : nolf l -> split_lines l = ([], l).
+Proof.
+  induction l as [|c r IH]; intros H; cbn [split_lines]; [reflexivity|].
+  unfold nolf in *. cbn [forallb] in H. apply andb_prop in H as [Hc Hr]. rewrite (IH Hr).
+  destruct (c =? 10); [discriminate|reflexivity].
+Qed.
+
+Lemma split_lines_app_line x : nolf x -> forall l,
+  split_lines (x ++ 10 :: l) = (x :: fst (split_lines l), snd (split_lines l)).
+Proof.
+  induction x as [|c r IH]; intros H l; cbn [app split_lines].
+  - destruct (split_lines l); reflexivity.
+  - unfold nolf in *. cbn [forallb] in H. apply andb_prop in H as [Hc Hr]. rewrite (IH Hr).
+    destruct (c =? 10); [discriminate|reflexivity].
+Qed.
+
+(* ... and conversely: joining LF-free lines and splitting again returns them (the reading is unique) *)
+Lemma split_lines_of_join : forall ls rem, Forall nolf ls -> nolf rem ->
+  split_lines (join_lines ls ++ rem) = (ls, rem).
+Proof.
+  induction ls as [|x xs IH]; intros rem Hf Hr.
+  - cbn. now apply split_lines_nolf.
+  - inversion Hf as [|? ? Hx Hxs]; subst. unfold join_lines. cbn [map concat].
+    rewrite <- !app_assoc. cbn [app]. rewrite (split_lines_app_line x Hx).
+    fold (join_lines xs). now rewrite (IH rem Hxs Hr).
+Qed.
+
+Theorem ref_lines_exact block ls :
+  ref_lines block = Some ls <-> (block = join_lines ls /\ Forall nolf ls).
+Proof.
+  unfold ref_lines. rewrite ref_cut_is_split. split.
+  - destruct (split_lines block) as [ls' rem] eqn:E. destruct rem; [|discriminate]. intros [= <-].
+    destruct (split_lines_join _ _ _ E) as (A & B & _). rewrite app_nil_r in A. now split.
+  - intros [-> Hf]. rewrite <- (app_nil_r (join_lines ls)).
+    now rewrite (split_lines_of_join ls [] Hf eq_refl).
+Qed.
+
+(* ================================================================== 2. groups *)
+Lemma ref_groups_nil ls : ref_groups ls = [] <-> ls = [].
+Proof.
+  destruct ls as [|l r]; cbn [ref_groups]; [tauto|].
+  split; [|discriminate]. destruct (ref_groups r); [discriminate|]. destruct (ref_next_is_cont r); discriminate.
+Qed.
+
+Lemma ref_groups_concat ls : concat (ref_groups ls) = ls.
+Proof.
+  induction ls as [|l r IH]; cbn [ref_groups]; [reflexivity|].
+  destruct (ref_groups r) as [|g gs] eqn:E.
+  - apply ref_groups_nil in E. now subst r.
+  - destruct (ref_next_is_cont r); cbn [concat app] in *; now rewrite IH.
+Qed.
+
+(* shape of one group: a head line followed by continuation lines only *)
+Definition group_shape (g : list bytes) : Prop :=
+  match g with [] => False | _ :: conts => Forall (fun l => ref_is_cont l = true) conts end.
+(* the line after a group's end (the next group's head) is not a continuation line *)
+Fixpoint heads_ok (gs : list (list bytes)) : Prop :=
+  match gs with
+  | [] => True
+  | g :: rest => match rest with (h :: _) :: _ => ref_is_cont h = false | _ => True end /\ heads_ok rest
+  end.
+
+Lemma ref_groups_shape ls : Forall group_shape (ref_groups ls) /\ heads_ok (ref_groups ls) /\
+  match ref_groups ls, ls with (h :: _) :: _, l :: _ => h = l | [], [] => True | _, _ => False end.
+Proof.
+  induction ls as [|l r IH]; cbn [ref_groups]; [repeat split; constructor|].
+  destruct IH as (Hs & Hh & Hd). destruct (ref_groups r) as [|g gs] eqn:E.
+  - repeat split; [constructor; [constructor|constructor]|].
+    cbn. tauto.
+  - destruct r as [|n r']; [destruct g; contradiction|]. destruct g as [|h g']; [contradiction|]. subst h.
+    cbn [ref_next_is_cont]. destruct (ref_is_cont n) eqn:En.
+    + inversion Hs as [|? ? Hg Hgs]; subst. repeat split; [|exact Hh].
+      constructor; [|exact Hgs]. cbn [group_shape] in *. constructor; [exact En|exact Hg].
+    + repeat split; [constructor; [constructor|exact Hs]|]. cbn [heads_ok]. split; [exact En|exact Hh].
+Qed.
+
+(* ================================================================== 3. one line *)
+Lemma cr_map_id fe : existsb is_cr fe = false -> map cr_to_sp fe = fe.
+Proof.
+  induction fe as [|c r IH]; cbn [existsb map]; [reflexivity|]. intros H.
+  apply orb_false_elim in H as [Hc Hr]. unfold cr_to_sp at 1. now rewrite Hc, (IH Hr).
+Qed.
+
+Lemma lenN_map {A B} (f : A -> B) l : lenN (map f l) = lenN l.
+Proof. induction l as [|x l IH]; cbn [map lenN]; [reflexivity|now rewrite IH]. Qed.
+
+Lemma proc_line_ref relaxed req ln cont :
+  proc_line relaxed req ln cont =
+  if ref_line_ok relaxed req (negb cont) ln
+  then Some (ref_line_text relaxed ln, ref_ends_cr ln, ref_has_bare_cr ln) else None.
+Proof.
+  unfold proc_line, ref_line_ok, ref_line_text, ref_has_bare_cr. fold (ref_ends_cr ln). fold (ref_body ln).
+  change (fun c : N => if is_cr c then 32 else c) with cr_to_sp.
+  set (crlf := ref_ends_cr ln). set (fe := ref_body ln).
+  destruct (crlf && req && negb (lenN fe =? 0) && forallb is_cr fe) eqn:E1.
+  - replace (req && crlf && negb (lenN fe =? 0) && forallb is_cr fe) with true
+      by (rewrite <- E1; destruct crlf, req; reflexivity). reflexivity.
+  - replace (req && crlf && negb (lenN fe =? 0) && forallb is_cr fe) with false
+      by (rewrite <- E1; destruct crlf, req; reflexivity). cbn [negb andb].
+    destruct (existsb is_cr fe) eqn:Eb.
+    + destruct relaxed; cbn [negb andb orb]; [|reflexivity].
+      rewrite lenN_map. destruct (lenN fe =? 1), cont; reflexivity.
+    + cbn [andb negb]. rewrite orb_true_r. cbn [andb].
+      replace (if relaxed then map cr_to_sp fe else fe) with fe by (destruct relaxed; [now rewrite cr_map_id|reflexivity]).
+      destruct (lenN fe =? 1), cont; reflexivity.
+Qed.
+
+(* ================================================================== 4. field-line split *)
+Lemma ows_is_space c : ref_ows c = c_isspace c.
+Proof. unfold ref_ows, c_isspace. lia. Qed.
+
+Lemma trim_left_ltrim l : ref_trim_left l = ltrim l.
+Proof.
+  unfold ltrim. induction l as [|c r IH]; cbn [ref_trim_left span]; [reflexivity|].
+  rewrite ows_is_space. destruct (c_isspace c); [|reflexivity].
+  rewrite IH. destruct (span c_isspace r); reflexivity.
+Qed.
+
+Lemma trim_right_rtrim l : ref_trim_right l = rtrim l.
+Proof. unfold ref_trim_right, rtrim. rewrite trim_left_ltrim. reflexivity. Qed.
+
+Lemma before_colon_span l :
+  ref_before_colon l =
+  match snd (span (fun c => negb (c =? 58)) l) with
+  | [] => None
+  | _ :: after => Some (fst (span (fun c => negb (c =? 58)) l), after)
+  end.
+Proof.
+  induction l as [|c r IH]; cbn [ref_before_colon span]; [reflexivity|].
+  destruct (c =? 58); cbn [negb fst snd]; [reflexivity|].
+  rewrite IH. destruct (span (fun c0 : N => negb (c0 =? 58)) r) as [a b]. cbn [fst snd].
+  destruct b; reflexivity.
+Qed.
+
+Definition tchar_check (c : N) : bool := implb (cs_TCHAR c) (negb (c_isspace c) && negb (c =? 58) && negb (c =? 0)).
+Lemma tchar_facts c : cs_TCHAR c = true -> c_isspace c = false /\ (c =? 58) = false /\ (c =? 0) = false.
+Proof.
+  intros H. assert (G : tchar_check c = true).
+  { destruct (N.ltb_spec c 256) as [Hc|Hc].
+    - exact (forallb_bytes tchar_check ltac:(vm_compute; reflexivity) c Hc).
+    - unfold tchar_check, cs_TCHAR, mem_tbl. rewrite tbl_get_oob by (vm_compute lenN; exact Hc). reflexivity. }
+  unfold tchar_check in G. rewrite H in G. cbn [implb] in G.
+  destruct (c_isspace c), (c =? 58), (c =? 0); try discriminate. auto.
+Qed.
+
+Lemma last_is_snoc p l c : last_is p (l ++ [c]) = p c.
+Proof. unfold last_is. now rewrite rev_unit. Qed.
+Lemma last_is_nil p : last_is p [] = false.
+Proof. reflexivity. Qed.
+
+Lemma list_snoc_cases {A} (l : list A) : l = [] \/ exists a c, l = a ++ [c].
+Proof.
+  destruct l as [|x r]; [now left|right]. destruct (exists_last (l := x :: r) ltac:(discriminate)) as (a & c & E).
+  eauto.
+Qed.
+
+Lemma last_is_forall p q l : forallb p l = true -> last_is q l = true -> exists c, p c = true /\ q c = true.
+Proof.
+  destruct (list_snoc_cases l) as [->|(a & c & ->)]; [discriminate|].
+  rewrite last_is_snoc, forallb_app. cbn [forallb]. intros H Hq.
+  apply andb_prop in H as [_ H]. apply andb_prop in H as [H _]. eauto.
+Qed.
+
+Lemma rtrim_snoc_nonspace a c : c_isspace c = false -> rtrim (a ++ [c]) = a ++ [c].
+Proof.
+  intros H. unfold rtrim. rewrite rev_unit. cbn [span]. rewrite H. cbn [snd].
+  change (c :: rev a) with (rev (a ++ [c]) ) at 1 || idtac. rewrite <- (rev_unit a c). apply rev_involutive.
+Qed.
+
+Lemma rtrim_no_trail l : last_is c_isspace l = false -> rtrim l = l.
+Proof.
+  destruct (list_snoc_cases l) as [->|(a & c & ->)]; [reflexivity|].
+  rewrite last_is_snoc. apply rtrim_snoc_nonspace.
+Qed.
+
+(* HttpHeaderEntry::parse is the reference field-line split followed by the table lookup *)
+Lemma entry_parse_ref req text :
+  h_entry_parse req text =
+  match ref_split req text with
+  | None => None
+  | Some (name, value) =>
+    Some {| he_id := fst (canon_name name); he_name := snd (canon_name name); he_value := c_str value |}
+  end.
+Proof.
+  unfold h_entry_parse, ref_split. rewrite before_colon_span.
+  destruct (span (fun c => negb (c =? 58)) text) as [name rest]. cbn [fst snd].
+  destruct rest as [|colon after]; [reflexivity|].
+  rewrite h_last_is_eq, !h_rtrim_eq, trim_right_rtrim.
+  unfold ref_trim. rewrite trim_right_rtrim, trim_left_ltrim.
+  destruct (lenN name =? 0) eqn:E0.
+  { assert (name = []) by (destruct name; [reflexivity|cbn [lenN] in E0; lia]). subst name.
+    destruct req; reflexivity. }
+  destruct (65534 <? lenN name) eqn:E1.
+  { rewrite orb_true_r. reflexivity. }
+  rewrite orb_false_r.
+  assert (Hfin : forall nm : bytes,
+    match nm with
+    | [] => None
+    | _ :: _ => if negb (forallb cs_TCHAR nm) then None
+                else if 65534 <? lenN (rtrim (ltrim after)) then None
+                else let '(id, n0) := canon_name nm in
+                     Some {| he_id := id; he_name := n0; he_value := c_str (rtrim (ltrim after)) |}
+    end =
+    if (lenN nm =? 0) || negb (forallb cs_TCHAR nm) then None
+    else if 65534 <? lenN (rtrim (ltrim after)) then None
+    else Some {| he_id := fst (canon_name nm); he_name := snd (canon_name nm);
+                 he_value := c_str (rtrim (ltrim after)) |}).
+  { intros nm. destruct nm as [|x xs]; [reflexivity|].
+    replace (lenN (x :: xs) =? 0) with false by (cbn [lenN]; lia). cbn [orb].
+    destruct (negb (forallb cs_TCHAR (x :: xs))); [reflexivity|].
+    destruct (65534 <? lenN (rtrim (ltrim after))); [reflexivity|].
+    destruct (canon_name (x :: xs)); reflexivity. }
+  destruct (last_is c_isspace name) eqn:El.
+  - destruct req.
+    + (* request: rejected by the model; the name is not a token *)
+      rewrite E0. cbn [orb].
+      assert (Ht : forallb cs_TCHAR name = false).
+      { destruct (forallb cs_TCHAR name) eqn:Ht; [|reflexivity].
+        destruct (last_is_forall _ _ _ Ht El) as (c & Hc & Hs). destruct (tchar_facts c Hc) as (A & _). congruence. }
+      rewrite Ht. reflexivity.
+    + apply Hfin.
+  - rewrite (rtrim_no_trail name El). destruct req; apply Hfin.
+Qed.
+
+(* ================================================================== 5. the loop is the pipeline *)
+Definition NN (l : bytes) : Prop := forallb (fun c => negb (c =? 0)) l = true.
+
+Lemma NN_app a b : NN (a ++ b) <-> NN a /\ NN b.
+Proof. unfold NN. rewrite forallb_app. split; [apply andb_prop|intros [-> ->]; reflexivity]. Qed.
+Lemma NN_rev l : NN l -> NN (rev l).
+Proof.
+  unfold NN. rewrite !forallb_forall. intros H x Hx. apply H. now apply in_rev.
+Qed.
+Lemma NN_tl l : NN l -> NN (tl l).
+Proof. destruct l; [auto|]. unfold NN. cbn [forallb tl]. intros H. now apply andb_prop in H as [_ H]. Qed.
+Lemma NN_span_snd p l : NN l -> NN (snd (span p l)).
+Proof. intros H. rewrite <- (span_app p l) in H. now apply NN_app in H as [_ H]. Qed.
+Lemma NN_span_fst p l : NN l -> NN (fst (span p l)).
+Proof. intros H. rewrite <- (span_app p l) in H. now apply NN_app in H as [H _]. Qed.
+Lemma NN_ltrim l : NN l -> NN (ltrim l).
+Proof. apply NN_span_snd. Qed.
+Lemma NN_rtrim l : NN l -> NN (rtrim l).
+Proof. intros H. unfold rtrim. now apply NN_rev, NN_span_snd, NN_rev. Qed.
+Lemma NN_body l : NN l -> NN (ref_body l).
+Proof. intros H. unfold ref_body, strip_last. destruct (ref_ends_cr l); [|exact H]. now apply NN_rev, NN_tl, NN_rev. Qed.
+Lemma NN_map_cr l : NN l -> NN (map cr_to_sp l).
+Proof.
+  unfold NN. induction l as [|c r IH]; cbn [map forallb]; [auto|]. intros H.
+  apply andb_prop in H as [Hc Hr]. rewrite (IH Hr). unfold cr_to_sp, is_cr. destruct (c =? 13); [reflexivity|now rewrite Hc].
+Qed.
+Lemma NN_text relaxed l : NN l -> NN (ref_line_text relaxed l).
+Proof. intros H. unfold ref_line_text. destruct relaxed; [apply NN_map_cr|]; now apply NN_body. Qed.
+Lemma NN_eol l : NN (ref_eol l).
+Proof. unfold ref_eol. destruct (ref_ends_cr l); reflexivity. Qed.
+Lemma NN_group_text relaxed g : Forall NN g -> NN (ref_group_text relaxed g).
+Proof.
+  induction g as [|l r IH]; intros H; [reflexivity|]. inversion H as [|? ? Hl Hr]; subst.
+  cbn [ref_group_text]. destruct r as [|l2 r2]; [now apply NN_text|].
+  apply NN_app; split; [now apply NN_text|]. apply NN_app; split; [apply NN_eol|now apply IH].
+Qed.
+Lemma c_str_NN l : NN l -> c_str l = l.
+Proof. apply c_str_nonul. Qed.
+
+Lemma before_colon_parts l n v : ref_before_colon l = Some (n, v) -> l = n ++ 58 :: v.
+Proof.
+  revert n v; induction l as [|c r IH]; intros n v; cbn [ref_before_colon]; [discriminate|].
+  destruct (c =? 58) eqn:E.
+  - intros [= <- <-]. apply N.eqb_eq in E. now subst c.
+  - destruct (ref_before_colon r) as [[n' v']|]; [|discriminate]. intros [= <- <-].
+    cbn [app]. now rewrite (IH _ _ eq_refl).
+Qed.
+
+Lemma ref_split_NN req text name value : NN text -> ref_split req text = Some (name, value) -> NN value.
+Proof.
+  unfold ref_split. intros H. destruct (ref_before_colon text) as [[rn rv]|] eqn:E; [|discriminate].
+  apply before_colon_parts in E. subst text. apply NN_app in H as [_ H].
+  assert (Hv : NN rv) by (unfold NN in *; cbn [forallb] in H; now apply andb_prop in H as [_ H]).
+  destruct (_ || _); [discriminate|]. destruct (65534 <? _); [discriminate|]. intros [= <- <-].
+  unfold ref_trim. rewrite trim_right_rtrim, trim_left_ltrim. now apply NN_rtrim, NN_ltrim.
+Qed.
+
+(* accumulated state of the lines already read into the current field *)
+Definition acc_of (relaxed : bool) (pre : list bytes) : bytes :=
+  concat (map (fun l => ref_line_text relaxed l ++ ref_eol l) pre).
+Definition bare_of (pre : list bytes) : bool := existsb ref_has_bare_cr pre.
+Definition isnil {A} (l : list A) : bool := match l with [] => true | _ => false end.
+Definition pend (pre : list bytes) (gs : list (list bytes)) : list (list bytes) :=
+  match gs with
+  | [] => match pre with [] => [] | _ => [pre] end
+  | g :: r => (pre ++ g) :: r
+  end.
+
+Lemma lines_ok_app relaxed req : forall a first b,
+  ref_lines_ok relaxed req first (a ++ b) =
+  ref_lines_ok relaxed req first a && ref_lines_ok relaxed req (first && isnil a) b.
+Proof.
+  induction a as [|x a IH]; intros first b; cbn [app ref_lines_ok isnil].
+  - now rewrite andb_true_r.
+  - rewrite IH. rewrite andb_false_r. cbn [andb]. now rewrite andb_assoc.
+Qed.
+
+Lemma group_text_snoc relaxed : forall pre ln,
+  ref_group_text relaxed (pre ++ [ln]) = acc_of relaxed pre ++ ref_line_text relaxed ln.
+Proof.
+  induction pre as [|x pre IH]; intros ln; [reflexivity|].
+  cbn [app]. unfold acc_of. cbn [map concat]. fold (acc_of relaxed pre).
+  change (ref_group_text relaxed (x :: pre ++ [ln])) with
+    (match pre ++ [ln] with [] => ref_line_text relaxed x
+     | _ :: _ => ref_line_text relaxed x ++ ref_eol x ++ ref_group_text relaxed (pre ++ [ln]) end).
+  destruct (pre ++ [ln]) eqn:E; [destruct pre; discriminate|]. rewrite <- E, IH. now rewrite <- !app_assoc.
+Qed.
+
+Lemma acc_of_snoc relaxed pre ln :
+  acc_of relaxed (pre ++ [ln]) = acc_of relaxed pre ++ ref_line_text relaxed ln ++ ref_eol ln.
+Proof. unfold acc_of. rewrite map_app, concat_app. cbn [map concat]. now rewrite app_nil_r. Qed.
+
+Lemma lenN_snoc {A} (l : list A) x : lenN (l ++ [x]) = N.succ (lenN l).
+Proof. rewrite lenN_app. cbn [lenN]. lia. Qed.
+
+Lemma lenN_pos_isnil {A} (l : list A) : (0 <? lenN l) = negb (isnil l).
+Proof. destruct l; cbn [lenN isnil negb]; lia. Qed.
+
+Lemma loop_rem relaxed req : forall lines rem acc nl bare, rem <> [] ->
+  h_fields_loop relaxed req lines rem acc nl bare = None.
+Proof.
+  induction lines as [|ln rest IH]; intros rem acc nl bare Hr; cbn [h_fields_loop].
+  - destruct rem; [contradiction|reflexivity].
+  - destruct (h_proc_line relaxed req ln (0 <? nl)) as [[[fe cr] b1]|]; [|reflexivity].
+    match goal with |- (if ?c then _ else _) = _ => destruct c end.
+    + destruct rest; [reflexivity|]. now apply IH.
+    + destruct (acc ++ fe).
+      * destruct rest; [destruct rem; [contradiction|reflexivity]|reflexivity].
+      * destruct (h_entry_parse req (b :: l)); [|reflexivity].
+        match goal with |- (if ?c then _ else _) = _ => destruct c end; [reflexivity|].
+        now rewrite IH.
+Qed.
+
+Lemma next_cont_eq (rest : list bytes) :
+  match (match rest with [] => [] | x :: _ => x ++ [10] end) with
+  | c :: _ => (c =? 32) || (c =? 9) | [] => false end = ref_next_is_cont rest.
+Proof. destruct rest as [|x r]; [reflexivity|]. destruct x; reflexivity. Qed.
+
+Lemma ref_field_snoc relaxed req pre ln :
+  Forall NN (pre ++ [ln]) ->
+  ref_field relaxed req (pre ++ [ln]) =
+  match h_entry_parse req (acc_of relaxed pre ++ ref_line_text relaxed ln) with
+  | None => None
+  | Some e => if ((0 <? lenN pre) || bare_of pre || ref_has_bare_cr ln) && h_is_framing e then None else Some e
+  end.
+Proof.
+  intros Hnn. unfold ref_field. rewrite group_text_snoc, entry_parse_ref.
+  assert (Ht : NN (acc_of relaxed pre ++ ref_line_text relaxed ln)).
+  { rewrite <- group_text_snoc. now apply NN_group_text. }
+  destruct (ref_split req (acc_of relaxed pre ++ ref_line_text relaxed ln)) as [[name value]|] eqn:E; [|reflexivity].
+  rewrite (c_str_NN value (ref_split_NN _ _ _ _ Ht E)).
+  destruct (canon_name name) as [id nm]. cbn [fst snd].
+  rewrite lenN_snoc. unfold bare_of. rewrite existsb_app. cbn [existsb]. rewrite orb_false_r.
+  replace (1 <? N.succ (lenN pre)) with (0 <? lenN pre) by lia. rewrite orb_assoc. reflexivity.
+Qed.
+
+Theorem loop_is_pipeline relaxed req : forall lines pre,
+  Forall NN lines -> Forall NN pre ->
+  ref_lines_ok relaxed req true pre = true ->
+  (pre = [] \/ ref_next_is_cont lines = true) ->
+  h_fields_loop relaxed req lines [] (acc_of relaxed pre) (lenN pre) (bare_of pre) =
+  ref_process relaxed req (pend pre (ref_groups lines)).
+Proof.
+  induction lines as [|ln rest IH]; intros pre Hnl Hnp Hok Hpre.
+  - destruct Hpre as [->|Hc]; [reflexivity|discriminate].
+  - inversion Hnl as [|? ? Hln Hrest]; subst.
+    cbn [h_fields_loop]. rewrite h_proc_line_eq, proc_line_ref, next_cont_eq, lenN_pos_isnil, negb_involutive.
+    assert (Hnp' : Forall NN (pre ++ [ln])) by (apply Forall_app; split; [exact Hnp|now constructor]).
+    assert (Hok' : ref_lines_ok relaxed req true (pre ++ [ln]) = ref_line_ok relaxed req (isnil pre) ln).
+    { rewrite lines_ok_app, Hok. cbn [andb ref_lines_ok]. now rewrite andb_true_r. }
+    cbn [ref_groups].
+    destruct (ref_next_is_cont rest) eqn:Ec.
+    + (* the next line continues this field *)
+      destruct rest as [|n rest']; [discriminate|].
+      destruct (ref_groups (n :: rest')) as [|g gs] eqn:Eg; [apply ref_groups_nil in Eg; discriminate|].
+      cbn [pend].
+      destruct (ref_line_ok relaxed req (isnil pre) ln) eqn:El.
+      * rewrite <- acc_of_snoc. rewrite <- lenN_snoc with (x := ln).
+        replace (bare_of pre || ref_has_bare_cr ln) with (bare_of (pre ++ [ln]))
+          by (unfold bare_of; rewrite existsb_app; cbn [existsb]; now rewrite orb_false_r).
+        rewrite (IH (pre ++ [ln]) Hrest Hnp'); [|now rewrite Hok'|now right].
+        rewrite Eg. cbn [pend]. now rewrite <- app_assoc.
+      * cbn [ref_process].
+        replace (pre ++ ln :: g) with ((pre ++ [ln]) ++ g) by now rewrite <- app_assoc.
+        rewrite lines_ok_app, Hok', El. reflexivity.
+    + (* this line ends the field *)
+      assert (Hgs : pend pre (match ref_groups rest with
+                              | [] => [[ln]]
+                              | g :: gs => [ln] :: g :: gs end) = (pre ++ [ln]) :: ref_groups rest).
+      { destruct (ref_groups rest); reflexivity. }
+      rewrite Hgs. cbn [ref_process]. rewrite Hok'.
+      destruct (ref_line_ok relaxed req (isnil pre) ln) eqn:El; [|reflexivity]. cbn [negb].
+      rewrite group_text_snoc.
+      assert (Hrec : h_fields_loop relaxed req rest [] [] 0 false = ref_process relaxed req (ref_groups rest)).
+      { change [] with (acc_of relaxed []) at 2. change 0 with (lenN (@nil bytes)). change false with (bare_of []).
+        rewrite (IH [] Hrest ltac:(constructor) eq_refl ltac:(now left)).
+        destruct (ref_groups rest); reflexivity. }
+      destruct (acc_of relaxed pre ++ ref_line_text relaxed ln) as [|b l] eqn:Et.
+      * destruct rest as [|n rest']; [reflexivity|].
+        destruct (ref_groups (n :: rest')) eqn:Eg; [apply ref_groups_nil in Eg; discriminate|reflexivity].
+      * rewrite <- Et. rewrite (ref_field_snoc relaxed req pre ln Hnp').
+        destruct (h_entry_parse req (acc_of relaxed pre ++ ref_line_text relaxed ln)) as [e|]; [|reflexivity].
+        rewrite lenN_pos_isnil.
+        replace (0 <? lenN pre) with (negb (isnil pre)) by now rewrite lenN_pos_isnil.
+        match goal with |- (if ?c then _ else _) = _ => destruct c end; [reflexivity|].
+        now rewrite Hrec.
+Qed.
+
+Lemma NN_lines block ls rem : NN block -> split_lines block = (ls, rem) -> Forall NN ls.
+Proof.
+  intros H E. destruct (split_lines_join _ _ _ E) as (-> & _ & _). apply NN_app in H as [H _].
+  clear E. induction ls as [|x xs IH]; [constructor|].
+  unfold join_lines in H. cbn [map concat] in H. apply NN_app in H as [Hx Hxs].
+  apply NN_app in Hx as [Hx _]. constructor; [exact Hx|now apply IH].
+Qed.
+
+(* the field loop of HttpHeader::parse computes exactly the reference reading, accept and reject alike *)
+Theorem block_fields_is_reference relaxed req block :
+  h_block_fields relaxed req block = ref_fields relaxed req block.
+Proof.
+  unfold h_block_fields, ref_fields, ref_lines, has_nul. rewrite ref_cut_is_split.
+  destruct (existsb (N.eqb 0) block) eqn:En; [reflexivity|].
+  assert (Hnn : NN block).
+  { unfold NN. apply forallb_forall. intros x Hx. destruct (x =? 0) eqn:E; [|reflexivity].
+    assert (existsb (N.eqb 0) block = true); [|congruence].
+    apply existsb_exists. exists x. split; [exact Hx|]. apply N.eqb_eq in E. subst. reflexivity. }
+  destruct (split_lines block) as [ls rem] eqn:Es.
+  destruct rem as [|r0 rem].
+  - change [] with (acc_of relaxed []) at 2. change 0 with (lenN (@nil bytes)). change false with (bare_of []).
+    rewrite (loop_is_pipeline relaxed req ls [] (NN_lines _ _ _ Hnn Es) ltac:(constructor) eq_refl ltac:(now left)).
+    destruct (ref_groups ls); reflexivity.
+  - now apply loop_rem.
 Qed.
